@@ -66,6 +66,12 @@ def harnesses(tier):
     for ks, tips in ((["snp"], (True, True)), (["snp", "del"], (True, True)), (["ins", "two"], (True, False)), (["tri", "nest", "inv"], (False, True)), (["snp", "snp"], (False, False))):
         hs.append({"id": "chain-numeric-ids/%s/t%d%d" % ("-".join(ks), tips[0], tips[1]),
                    "params": {"kind": "chain", "kinds": ks, "tips": list(tips), "variants": [0, 1], "naming": 4, "hashseed": len(ks) % 3}, "timeout": 600})
+    # segment ids taken from the string constants of order_gfa.py / gfa.py (Name, chr1, BO, s, b, S, L, ... and the same + digit)
+    nsrc = len(F.names_from_source())
+    for j, k in enumerate(range(0, nsrc, 9)):
+        kinds, tips = ((["snp", "ins", "two"], [True, True]), (["del", "snp", "tri"], [True, False]), (["two", "snp"], [False, True]))[j % 3]
+        hs.append({"id": "chain-ids-from-source/%d" % k, "params": {"kind": "chain", "kinds": kinds, "tips": tips, "variants": [0, 3], "naming": 5,
+                                                                    "name_pos": k, "hashseed": j % 3}, "timeout": 600})
     # chains with fewer than two articulation points
     for ks, tips in ((["snp"], (False, False)), (["ins"], (False, False)), (["snp", "del"], (False, False)), (["tri"], (True, False)),
                      (["inv"], (False, True)), (["snp", "ins"], (False, False))):
@@ -112,15 +118,16 @@ def text_lines(spec, so, variant, rot=0):
     return out
 
 
-def make_spec(kinds, tips, naming, chrom="chr1", spec=None):
+def make_spec(kinds, tips, naming, chrom="chr1", spec=None, name_pos=0):
     spec = spec or F.Spec()
+    spec.name_pos = name_pos
     build = F.build_chain(spec, chrom, kinds, tip_start=tips[0], tip_end=tips[1], naming=naming)
     return spec
 
 
 def build(params):
     if params["kind"] == "chain":
-        spec = make_spec(params["kinds"], params["tips"], params["naming"])
+        spec = make_spec(params["kinds"], params["tips"], params["naming"], name_pos=params.get("name_pos", 0))
         nref = F.n_refs(spec, "chr1")
         args = [("ln%d" % i, "int") for i in range(nref)] + [("so0", "int"), ("bo0", "int")]
         pre = [" and ".join("ln%d >= 1" % i for i in range(nref)), "so0 >= 0 and bo0 >= 0"]
@@ -287,7 +294,7 @@ def replay(params, model, wd):
 
     a = model["args"]
     if params["kind"] == "chain":
-        spec = make_spec(params["kinds"], params["tips"], params["naming"])
+        spec = make_spec(params["kinds"], params["tips"], params["naming"], name_pos=params.get("name_pos", 0))
         nref = F.n_refs(spec, "chr1")
         lens = a[:nref]
         so0 = a[nref]
